@@ -51,6 +51,8 @@ class C19(Prop):
                                  beta_forms=("vector_const", "vector_rand", "int"),
                                  mmc_values=(0, 0, 1e-3, 1e-2), knob_p=0.1)
         case["data"]["layout"] = r.choice(["C", "readonly", "F", "strided", "readonly"])
+        if r.random() < 0.25:
+            case["data"]["dtype"] = r.choice(["float32", "int"])
         case["args"]["sparsity_weight"]["layout"] = r.choice(LAYOUTS)
         case["args"]["label_switching_cost"]["layout"] = r.choice(LAYOUTS[:3] + ["strided"])
         case["pool"]["direct"] = r.random() < 0.5
